@@ -73,7 +73,7 @@ static sigset_t mask_before[64][4];
 static NS void lib_enter(void)
 {
 	struct tstate *t = me_ts();
-	if (t->in_lib < 4) pthread_sigmask(SIG_SETMASK, NULL, &mask_before[ds_self()][t->in_lib]);
+	if (t->in_lib < 4) sigprocmask(SIG_SETMASK, NULL, &mask_before[ds_self()][t->in_lib]);	/* per-thread on Linux; not the wrapped pthread_sigmask */
 	t->in_lib++;
 }
 static NS void lib_exit(void)
@@ -81,7 +81,7 @@ static NS void lib_exit(void)
 	struct tstate *t = me_ts();
 	t->in_lib--;
 	if (t->in_lib < 4) {
-		sigset_t now; pthread_sigmask(SIG_SETMASK, NULL, &now);
+		sigset_t now; sigprocmask(SIG_SETMASK, NULL, &now);
 		for (int s = 1; s < 32; s++)
 			if (sigismember(&now, s) != sigismember(&mask_before[ds_self()][t->in_lib], s))
 				ds_fail("a library call changed the calling thread's signal mask: signal %d was %s before the call and is %s after it", s,
@@ -155,7 +155,7 @@ static NS void bp_slot_check(void)
 	if (!t->bp_slot) {
 		t->bp_slot = s;
 		int k; for (k = 0; k < nslots_seen; k++) if (slots_seen[k] == s) break;
-		if (k == nslots_seen && nslots_seen < 64) slots_seen[nslots_seen++] = s;
+		if (k == nslots_seen && nslots_seen < 64) { slots_seen[nslots_seen++] = s; ds_note("bp: new reader slot %p (distinct slots so far %d, live threads %d, peak %d)", s, nslots_seen, live_threads, peak_threads); }
 		if (nslots_seen > 1) ds_flag(CF_BP_GROW);	/* INIT_READER_COUNT=1 (hook): a second distinct slot means the arena grew */
 	}
 	else if (t->bp_slot != s) ds_fail("bp: reader slot of E%d moved from %p to %p", ds_self(), t->bp_slot, s);
